@@ -9,6 +9,7 @@ A construct the interpreter does not understand raises EngineError (the check
 then exits 3) - nothing is skipped silently.
 """
 import ast
+import os
 import builtins
 import importlib
 import inspect
@@ -154,6 +155,9 @@ class SObj:
         return o
 
 
+COVERAGE = set() if os.environ.get('PYVC_COVERAGE') else None      # (module, line) of interpreted statements (tools/coverage_report.py)
+
+
 class IFunc:
     def __init__(self, node, module, closure, interp, defining_class=None, qualname=None):
         self.node = node
@@ -267,6 +271,7 @@ class Interp:
         self.repo_prefix = repo_prefix
         self.functions_entered = {}     # spec -> info (for evidence)
         self.loop_hooks = {}            # (spec, ordinal) -> hook
+        self.forward = {}               # id(numeric array) -> (array, object array that replaced it)
         self._ifunc_cache = {}
         self.native_prefixes = []
         self.native_used = set()
@@ -633,6 +638,8 @@ class Interp:
             self.exec_stmt(s, frame)
 
     def exec_stmt(self, s, frame):
+        if COVERAGE is not None:
+            COVERAGE.add((getattr(frame.module, '__name__', '?'), s.lineno))
         self.steps += 1
         if self.steps > self.max_steps:
             raise EngineError("step limit exceeded")
@@ -707,6 +714,8 @@ class Interp:
         op = _BINOPS[type(s.op)]
         if isinstance(t, ast.Name):
             cur = frame.lookup(t.id)
+            if self.forward and isinstance(cur, np.ndarray):
+                cur = self.forwarded(cur)
             new = self.binop(op, cur, self.eval(s.value, frame), inplace=True)
             self.assign(t, new, frame)
         elif isinstance(t, ast.Attribute):
@@ -766,6 +775,7 @@ class Interp:
             # dtype=object and rebind the expression it came from
             nb = obj_array(base)
             self._rebind(t.value, nb, frame)
+            self.forward_array(base, nb)
             base = nb
         if isinstance(base, SObj):
             si = inspect.getattr_static(base.cls, '__setitem__', None)
@@ -1001,7 +1011,23 @@ class Interp:
         m = getattr(self, 'expr_' + type(e).__name__, None)
         if m is None:
             raise EngineError("expression %s not supported (line %d)" % (type(e).__name__, getattr(e, 'lineno', -1)))
-        return m(e, frame)
+        v = m(e, frame)
+        if self.forward and isinstance(v, np.ndarray):
+            v = self.forwarded(v)
+        return v
+
+    def forwarded(self, v):
+        """A numeric array that had to become an object array (it received symbolic values) is replaced by that object array
+        wherever the old array is still referenced: aliasing through a kept reference (work buffers, cached results) survives."""
+        n = 0
+        while id(v) in self.forward and n < 8:
+            v = self.forward[id(v)][1]
+            n += 1
+        return v
+
+    def forward_array(self, old, new):
+        if old is not new:
+            self.forward[id(old)] = (old, new)        # the old array is kept alive so that its id is not reused
 
     def expr_Constant(self, e, frame):
         return e.value
@@ -1113,7 +1139,10 @@ class Interp:
                     return self.call(self._as_callable(f), [b, a])
             raise PyRaise(TypeError("unsupported operand types for %s" % names[0]))
         if isinstance(a, np.ndarray) and a.dtype != object and contains_sym(b):
+            a0 = a
             a = obj_array(a)
+            if inplace:
+                self.forward_array(a0, a)         # `x op= symbolic`: every reference to x sees the update
         if isinstance(b, np.ndarray) and b.dtype != object and contains_sym(a):
             b = obj_array(b)
         if (isinstance(a, np.ndarray) or isinstance(b, np.ndarray)) and (contains_sym(a) or contains_sym(b)):
@@ -1756,6 +1785,19 @@ def m_np_allclose(interp, a, b, rtol=1e-05, atol=1e-08, equal_nan=False):
 
 def m_np_sum(interp, x, *a, **k):
     """np.sum counts True entries of a boolean array: symbolic booleans enter as ite(b, 1, 0)"""
+    out = k.get("out")
+    if out is not None and isinstance(out, np.ndarray) and contains_sym(x):
+        # result written into a caller-supplied buffer: in place when the buffer can hold it, otherwise the buffer is replaced
+        # (everywhere it is referenced) by an object array
+        kk = {kk_: v for kk_, v in k.items() if kk_ != "out"}
+        r = m_np_sum(interp, x, *a, **kk)
+        tgt = interp.forwarded(out)
+        if tgt.dtype != object:
+            nb = obj_array(tgt)
+            interp.forward_array(tgt, nb)
+            tgt = nb
+        tgt[...] = r
+        return tgt
     if isinstance(x, np.ndarray) and x.dtype == object and any(isinstance(v, SBool) for v in x.flat):
         one, zero = SNum(sym.z3.IntVal(1), 'int'), SNum(sym.z3.IntVal(0), 'int')
         x = np.frompyfunc(lambda v: sym.ite(v, one, zero) if isinstance(v, SBool) else (int(v) if isinstance(v, (bool, np.bool_)) else v), 1, 1)(x)
